@@ -9,7 +9,7 @@ import re
 import sympy as sp
 
 from ..core import inline_locals, AnalysisError, call_name, unparse, walk_no_nested
-from ..dsl import ELEM, EQ, LE, LT, Dsl
+from ..dsl import ELEM, EQ, GE, GT, LE, LT, NE, Dsl
 from ..pattern import _parse, body_is, find, find_expr, has, has_expr, m_node
 from ..report import Ctx
 from ..sym import equal
@@ -29,12 +29,312 @@ def _same(a, b) -> bool:
     return d == 0
 
 
-#: obligations whose failure contradicts the property (rule, construct pattern, why); every other failure is 'not recognised'
-POSITIVE: list[tuple[str, str, str]] = [
-    ('C17.R1', r':constant$', 'a numerical constant is not the mathematical constant it stands for, at the precision it is printed with'),
-    ('C17.R5', r'^(distributions\.\w+|loglikelihoodregression)$', 'the formula translated from the source is not the textbook density / distribution'),
-    ('C17.R2', r'^boxcox:(regular|maclaurin|switch)$', 'a branch of the Box-Cox transform, translated from the source, is not (x^l - 1)/l, its Maclaurin polynomial, or the symmetric switch'),
-]
+class _Undefined(Exception):
+    pass
+
+
+_IND = {LT: lambda d: d < 0, LE: lambda d: d <= 0, EQ: lambda d: d == 0, GT: lambda d: d > 0, GE: lambda d: d >= 0, NE: lambda d: d != 0}
+
+
+def _at(e, point: dict):
+    """value of a translated formula at a point (exact rational coordinates): indicator atoms by their truth there, ELEM by the
+    branch it selects there; None where the formula is not a finite real number"""
+
+    def go(t):
+        if t.func in _IND:
+            d = go(t.args[0]) - go(t.args[1])
+            try:
+                return sp.Integer(1 if bool(_IND[t.func](d)) else 0)
+            except TypeError:
+                raise _Undefined
+        if t.func == ELEM:
+            sel = go(t.args[0])
+            for k, v in zip(t.args[1::2], t.args[2::2]):
+                try:
+                    if bool(sp.Eq(go(k), sel)):
+                        return go(v)
+                except TypeError:
+                    raise _Undefined
+            raise _Undefined
+        if not t.args:
+            return t
+        return t.func(*[go(a) for a in t.args])
+
+    try:
+        v = sp.N(go(sp.sympify(e).subs(point, simultaneous=True)), 30)
+    except (_Undefined, ZeroDivisionError, ValueError, TypeError, AttributeError, RecursionError):
+        return None
+    if not getattr(v, 'is_Float', False) and not getattr(v, 'is_Integer', False) and not getattr(v, 'is_Rational', False):
+        return None
+    if v.is_finite is False or v.is_real is False:
+        return None
+    return v
+
+
+#: two formulas are told apart only by a point where their values differ by more than this (relative): the precision to which the
+#: numeric literals of the source stand for the mathematical constants
+TOL = sp.Float('1e-8')
+
+
+def _grid(**axes):
+    import itertools
+
+    keys = list(axes)
+    return [dict(zip(keys, combo)) for combo in itertools.product(*[axes[k] for k in keys])]
+
+
+def _compare(got, want, points: list[dict]):
+    """(True, None) when the two formulas are proved equal; (False, witness) when a point is found where both are defined and
+    their values differ; (None, None) when neither (the verdict stays open)"""
+    try:
+        if _same(got, want):
+            return True, None
+    except Exception:  # noqa
+        pass
+    free = {str(x) for x in sp.sympify(got).free_symbols | sp.sympify(want).free_symbols}
+    for pt in points:
+        if not free <= set(pt):
+            return None, None
+        sub = {sp.Symbol(k, real=True): sp.nsimplify(v) for k, v in pt.items()}
+        a, b = _at(got, sub), _at(want, sub)
+        if a is None or b is None:
+            continue
+        if abs(a - b) > TOL * max(1, abs(b)):
+            return False, ', '.join(f'{k} = {v}' for k, v in pt.items()) + f': {sp.N(a, 8)} instead of {sp.N(b, 8)}'
+    return None, None
+
+
+def _verdict(ctx: Ctx, rule: str, construct: str, got, want, points, where, head: str, textbook: str) -> None:
+    """the obligation `got == want`: discharged by a symbolic proof, VIOLATED by a point where the two values differ (a fact
+    about the function whatever the way it is written), left open otherwise"""
+    ok, wit = _compare(got, want, points)
+    try:
+        shown = sp.simplify(got)
+    except Exception:  # noqa
+        shown = got
+    if ok:
+        ctx.add(rule, construct, True, where, f'{head} = {shown}')
+    elif ok is False:
+        ctx.add(rule, construct, False, where, f'{head} = {shown} ; {textbook}: {want} ; at {wit}', str(shown), positive=True)
+    else:
+        ctx.add(rule, construct, None, where, f'{head} = {shown} could not be compared with {textbook} {want}: neither proved equal nor told apart at the sample points', str(shown))
+
+
+Q = sp.Rational
+
+#: obligations whose failure contradicts the property (rule, construct pattern, why); every other failure is 'not recognised'.
+#: The formula rules (R2, R5) do not appear here: each of them is positive only with a point where the translated formula and
+#: the documented one take different values (see _verdict); R1 only with a literal that is wrong at its printed precision.
+POSITIVE: list[tuple[str, str, str]] = []
+
+
+def _threshold_terms(cfg, func: ast.AST, expr: ast.expr, at, depth: int = 8) -> list:
+    """the values an expression of piecewise_variables can have, each as a sympy combination of the symbols thresholds[k] (k a
+    non-negative literal), following the locals through their reaching definitions (copies, tuple unpacking, an element of a
+    local list / tuple display); None for a value that is not such a combination.  The list parameter `thresholds` must
+    never be rebound or modified in the function."""
+
+    def untouched() -> bool:
+        for n in ast.walk(func):
+            if isinstance(n, ast.Name) and n.id == 'thresholds' and isinstance(n.ctx, (ast.Store, ast.Del)):
+                return False
+            if isinstance(n, (ast.Subscript, ast.Attribute)) and isinstance(n.ctx, (ast.Store, ast.Del)) and isinstance(n.value, ast.Name) and n.value.id == 'thresholds':
+                return False
+            if isinstance(n, ast.Call) and isinstance(n.func, ast.Attribute) and isinstance(n.func.value, ast.Name) and n.func.value.id == 'thresholds' \
+                    and n.func.attr in ('append', 'extend', 'insert', 'pop', 'remove', 'clear', 'sort', 'reverse', '__setitem__', '__delitem__'):
+                return False
+        return True
+
+    def lit_index(ix):
+        v = ix.value if isinstance(ix, ast.Constant) else None
+        return v if isinstance(v, int) and not isinstance(v, bool) and v >= 0 else None
+
+    def go(e, node, d) -> list:
+        if d == 0 or node is None:
+            return [None]
+        if isinstance(e, ast.Constant) and isinstance(e.value, (int, float)) and not isinstance(e.value, bool):
+            return [sp.nsimplify(e.value)]
+        if isinstance(e, ast.Call) and call_name(e) in ('Numeric', 'float') and len(e.args) == 1 and not e.keywords:
+            return go(e.args[0], node, d)
+        if isinstance(e, ast.Subscript) and isinstance(e.value, ast.Name) and e.value.id == 'thresholds':
+            k = lit_index(e.slice)
+            return [sp.Symbol(f'thresholds[{k}]')] if k is not None else [None]
+        if isinstance(e, ast.Subscript) and isinstance(e.value, ast.Name):
+            # an element of a local display: xs = [a, b] ... xs[0]
+            k = lit_index(e.slice)
+            ds = cfg.reaching(node, e.value.id)
+            if k is None or not ds or _mutated(func, e.value.id):
+                return [None]
+            out = []
+            for df in ds:
+                if df.kind == 'assign' and isinstance(df.value, (ast.List, ast.Tuple)) and k < len(df.value.elts) and not any(isinstance(x, ast.Starred) for x in df.value.elts):
+                    out += go(df.value.elts[k], df.node, d - 1)
+                else:
+                    out.append(None)
+            return out
+        if isinstance(e, ast.Name):
+            ds = cfg.reaching(node, e.id)
+            if not ds:
+                return [None]
+            out = []
+            for df in ds:
+                if df.kind == 'assign' and df.value is not None:
+                    out += go(df.value, df.node, d - 1)
+                elif df.kind == 'unpack' and isinstance(df.value, (ast.Tuple, ast.List)) and df.index is not None and isinstance(df.target, ast.Name) \
+                        and df.index < len(df.value.elts) and not any(isinstance(x, ast.Starred) for x in df.value.elts) and _flat_unpack(cfg, df):
+                    out += go(df.value.elts[df.index], df.node, d - 1)
+                else:
+                    out.append(None)
+            return out
+        if isinstance(e, ast.UnaryOp) and isinstance(e.op, (ast.USub, ast.UAdd)):
+            return [None if v is None else (-v if isinstance(e.op, ast.USub) else v) for v in go(e.operand, node, d)]
+        if isinstance(e, ast.BinOp) and isinstance(e.op, (ast.Add, ast.Sub, ast.Mult)):
+            ls, rs = go(e.left, node, d), go(e.right, node, d)
+            f = {ast.Add: lambda p, q: p + q, ast.Sub: lambda p, q: p - q, ast.Mult: lambda p, q: p * q}[type(e.op)]
+            return [None if (p is None or q is None) else f(p, q) for p in ls for q in rs]
+        return [None]
+
+    if not untouched():
+        return [None]
+    return go(expr, at, depth)
+
+
+def _flat_unpack(cfg, df) -> bool:
+    """the unpacking `a, b = x, y` that defines df has a flat target (position = index of the element)"""
+    st = cfg.stmt.get(df.node) if hasattr(cfg, 'stmt') else None
+    if not isinstance(st, ast.Assign) or len(st.targets) != 1 or not isinstance(st.targets[0], (ast.Tuple, ast.List)):
+        return False
+    elts = st.targets[0].elts
+    return all(isinstance(x, ast.Name) for x in elts) and isinstance(st.value, (ast.Tuple, ast.List)) and len(elts) == len(st.value.elts)
+
+
+def _mutated(func: ast.AST, name: str) -> bool:
+    """the local container `name` is modified (element store, in-place method, augmented assignment) or handed to a call"""
+    for n in ast.walk(func):
+        if isinstance(n, (ast.Subscript, ast.Attribute)) and isinstance(n.ctx, (ast.Store, ast.Del)) and isinstance(n.value, ast.Name) and n.value.id == name:
+            return True
+        if isinstance(n, ast.AugAssign) and isinstance(n.target, ast.Name) and n.target.id == name:
+            return True
+        if isinstance(n, ast.Call):
+            if isinstance(n.func, ast.Attribute) and isinstance(n.func.value, ast.Name) and n.func.value.id == name and n.func.attr not in ('index', 'count', 'copy'):
+                return True
+            if any(isinstance(x, ast.Name) and x.id == name for a in list(n.args) + [k.value for k in n.keywords] for x in [a.value if isinstance(a, ast.Starred) else a]):
+                return True  # the container itself is an argument (reading one of its elements in an argument is harmless)
+    return False
+
+
+def _param_stores(func: ast.FunctionDef, target: str, param: str):
+    """(stores, flows, escapes) for the attribute `target` and the parameter `param` of a method:
+    stores  - the assignments to the attribute;
+    flows   - those whose stored value can depend on the parameter: through the data (the value, followed backwards through the
+              reaching definitions of every name it reads, reads the parameter) or through the control (the store is made under a
+              test that reads the parameter, other than in the branch taken when the parameter is None);
+    escapes - other ways the parameter can reach the object: it (or a value computed from it) is an argument of a call that also
+              receives self or is a method of self, setattr / __dict__ writes, a store through another name of self."""
+    from ..cfg import cfg_of
+
+    cfg = cfg_of(func)
+    selfname = func.args.args[0].arg if func.args.args else 'self'
+
+    def reads_param(e: ast.AST, node, seen: set) -> bool:
+        for n in ast.walk(e):
+            if not isinstance(n, ast.Name) or not isinstance(n.ctx, ast.Load):
+                continue
+            if n.id == param:
+                for df in (cfg.reaching(node, param) if node is not None else []):
+                    if df.kind == 'param':
+                        return True
+                    if (df.node, param) not in seen:
+                        seen.add((df.node, param))
+                        if df.value is None or reads_param(df.value, df.node, seen):
+                            return True
+                if node is None:
+                    return True
+                continue
+            for df in (cfg.reaching(node, n.id) if node is not None else []):
+                if (df.node, n.id) in seen:
+                    continue
+                seen.add((df.node, n.id))
+                if df.kind == 'param':
+                    continue
+                if df.value is not None and reads_param(df.value, df.node, seen):
+                    return True
+        return False
+
+    def is_none_test(t: ast.expr, node):
+        """+1: true exactly when the parameter is None, -1: exactly when it is not None, 0: another test"""
+        if isinstance(t, ast.UnaryOp) and isinstance(t.op, ast.Not):
+            return -is_none_test(t.operand, node)
+        if isinstance(t, ast.Compare) and len(t.ops) == 1 and isinstance(t.ops[0], (ast.Is, ast.IsNot)):
+            l, r = t.left, t.comparators[0]
+            if isinstance(l, ast.Constant) and l.value is None:
+                l, r = r, l
+            if isinstance(r, ast.Constant) and r.value is None and isinstance(l, ast.Name):
+                os_ = cfg.origins(l, node) if node is not None else [l]
+                if all(isinstance(o, ast.Name) and o.id == param for o in os_) and all(df.kind == 'param' for df in cfg.reaching(node, param)):
+                    return 1 if isinstance(t.ops[0], ast.Is) else -1
+        return 0
+
+    parents: dict[int, tuple[ast.AST, str]] = {}
+    for n in ast.walk(func):
+        for fld in ('body', 'orelse', 'finalbody', 'handlers'):
+            for ch in getattr(n, fld, []) if isinstance(getattr(n, fld, None), list) else []:
+                parents[id(ch)] = (n, fld)
+
+    def control_flow(st: ast.stmt) -> bool:
+        cur = st
+        while id(cur) in parents:
+            par, fld = parents[id(cur)]
+            test = par.test if isinstance(par, (ast.If, ast.While)) else par.iter if isinstance(par, (ast.For, ast.AsyncFor)) else None
+            if test is not None:
+                node = cfg.node_of(par)
+                if node is None:
+                    node = cfg.node_of(test)
+                if reads_param(test, node, set()):
+                    k = is_none_test(test, node) if isinstance(par, ast.If) else 0
+                    default_branch = (k == 1 and fld == 'body') or (k == -1 and fld == 'orelse')
+                    if not default_branch:
+                        return True
+            cur = par
+        return False
+
+    stores, flows, escapes = [], [], []
+    for n in walk_no_nested(func):
+        tgt = val = None
+        if isinstance(n, ast.Assign) and any(unparse(t) == target for t in n.targets):
+            tgt, val = n, n.value
+        elif isinstance(n, ast.AnnAssign) and n.value is not None and unparse(n.target) == target:
+            tgt, val = n, n.value
+        if tgt is not None:
+            stores.append(tgt)
+            node = cfg.node_of(tgt)
+            if node is None or reads_param(val, node, set()) or control_flow(tgt):
+                flows.append(tgt)
+    attr = target.split('.', 1)[1] if '.' in target else target
+    for n in ast.walk(func):
+        if isinstance(n, (ast.FunctionDef, ast.AsyncFunctionDef, ast.Lambda)) and n is not func:
+            escapes.append(n)  # a nested function can store what it likes
+        elif isinstance(n, ast.Call):
+            cn = call_name(n) or ''
+            args = list(n.args) + [k.value for k in n.keywords]
+            on_self = isinstance(n.func, ast.Attribute) and any(isinstance(x, ast.Name) and x.id == selfname for x in ast.walk(n.func.value))
+            with_self = any(isinstance(x, ast.Name) and x.id == selfname for a in args for x in ast.walk(a))
+            if cn.split('.')[-1] in ('setattr', '__setattr__', 'update', 'vars') and (with_self or on_self):
+                escapes.append(n)
+            elif on_self or with_self:
+                node = cfg.node_of(n)
+                if any(node is None or reads_param(a, node, set()) for a in args):
+                    escapes.append(n)
+        elif isinstance(n, (ast.Tuple, ast.List)) and isinstance(getattr(n, 'ctx', None), ast.Store) and any(unparse(x) == target for x in n.elts):
+            escapes.append(n)  # self.reference among the targets of an unpacking
+        elif isinstance(n, ast.Assign) and isinstance(n.value, ast.Name) and n.value.id == selfname:
+            escapes.append(n)  # another name for self
+        elif isinstance(n, ast.Attribute) and isinstance(n.ctx, ast.Store) and n.attr == attr and unparse(n) != target:
+            escapes.append(n)
+        elif isinstance(n, (ast.With, ast.For, ast.NamedExpr)) and target in unparse(getattr(n, 'target', None) or n):
+            if isinstance(n, ast.For) and unparse(n.target) == target:
+                escapes.append(n)
+    return stores, flows, escapes
 
 
 def run(ctx: Ctx) -> None:
@@ -53,39 +353,48 @@ def run(ctx: Ctx) -> None:
     x, mu, s, a, b, c = sp.symbols('x mu s a b c', real=True)
 
     def dsl(mod, name):
-        d = Dsl(prog.func(mod, name), CONSTS)
+        d = Dsl(prog.func(mod, name), CONSTS, prog)
         if d.ret is None:
             raise AnalysisError(f'C17: {name} returns nothing')
         return d
 
-    # constants
-    for mod, name, want, label in ((D, 'normalpdf', math.sqrt(2 * math.pi), 'sqrt(2 pi)'), (D, 'lognormalpdf', math.sqrt(2 * math.pi), 'sqrt(2 pi)'), ('loglikelihood', 'loglikelihoodregression', 0.5 * math.log(2 * math.pi), '(1/2) ln(2 pi)')):
-        f = prog.func(mod, name)
-        lits = [n for n in ast.walk(f.node) if isinstance(n, ast.Constant) and isinstance(n.value, float) and abs(n.value - want) < 0.01]
-        ok = len(lits) == 1
-        if ok:
-            digits = len(repr(lits[0].value).split('.')[-1])
-            ok = abs(lits[0].value - want) <= 0.5 * 10 ** (-digits) * 1.0000001
-        ctx.add('C17.R1', f'{name}:constant', ok, (f.file, lits[0].lineno if lits else f.line), f'{lits[0].value if lits else "?"} stands for {label} = {want:.12g}' + ('' if ok else ' - wrong at the printed precision'), str(lits[0].value) if lits else '')
     # densities
     cases = {
-        'normalpdf': sp.exp(-((x - mu) ** 2) / (2 * s**2)) / (s * SQRT2PI),
-        'lognormalpdf': LT(0, x) * sp.exp(-((sp.log(x) - mu) ** 2) / (2 * s**2)) / (x * s * SQRT2PI),
-        'uniformpdf': LE(a, x) * LE(x, b) / (b - a),
-        'triangularpdf': LE(a, x) * LT(x, c) * 2 * (x - a) / ((b - a) * (c - a)) + EQ(x, c) * 2 / (b - a) + LT(c, x) * LE(x, b) * 2 * (b - x) / ((b - a) * (b - c)),
-        'logisticcdf': 1 / (1 + sp.exp(-(x - mu) / s)),
+        'normalpdf': (sp.exp(-((x - mu) ** 2) / (2 * s**2)) / (s * SQRT2PI), _grid(x=[Q(-3, 2), 0, Q(2, 3), Q(7, 3)], mu=[Q(-1, 2), 0, Q(5, 4)], s=[Q(1, 2), 1, Q(7, 3)])),
+        'lognormalpdf': (LT(0, x) * sp.exp(-((sp.log(x) - mu) ** 2) / (2 * s**2)) / (x * s * SQRT2PI), _grid(x=[Q(1, 3), 1, Q(5, 2), 7], mu=[Q(-1, 2), 0, Q(5, 4)], s=[Q(1, 2), 1, Q(7, 3)])),
+        'uniformpdf': (LE(a, x) * LE(x, b) / (b - a), [dict(a=lo, b=hi, x=v) for lo, hi in ((-1, 2), (Q(1, 2), 3)) for v in (lo - 1, lo, (lo + hi) / Q(2), hi, hi + 1)]),
+        'triangularpdf': (LE(a, x) * LT(x, c) * 2 * (x - a) / ((b - a) * (c - a)) + EQ(x, c) * 2 / (b - a) + LT(c, x) * LE(x, b) * 2 * (b - x) / ((b - a) * (b - c)),
+                          [dict(a=lo, c=mid, b=hi, x=v) for lo, mid, hi in ((-1, Q(1, 2), 2), (0, 1, 5), (Q(1, 3), 2, Q(9, 4)))
+                           for v in (lo - 1, lo, (lo + mid) / Q(2), (2 * lo + mid) / Q(3), mid, (mid + hi) / Q(2), (mid + 2 * hi) / Q(3), hi, hi + 1)]),
+        'logisticcdf': (1 / (1 + sp.exp(-(x - mu) / s)), _grid(x=[Q(-3, 2), 0, Q(2, 3), Q(7, 3)], mu=[Q(-1, 2), 0, Q(5, 4)], s=[Q(1, 2), 1, Q(7, 3)])),
     }
-    for name, want in cases.items():
+    evaluated = {}
+    for name, (want, points) in cases.items():
         d = dsl(D, name)
-        got = d.ret
+        evaluated[name] = d
         # terms that are explicitly zero (indicator * 0) vanish in the normal form
-        ok = _same(got, want)
-        ctx.add('C17.R5', f'distributions.{name}', ok, d.f, f'{name} = {sp.simplify(got)}' + ('' if ok else f' ; textbook: {want}'), detail='' if ok else str(sp.simplify(got)))
+        _verdict(ctx, 'C17.R5', f'distributions.{name}', d.ret, want, points, d.f, name, 'textbook')
     meas, model, sigma = sp.symbols('meas model sigma', real=True)
     d = dsl('loglikelihood', 'loglikelihoodregression')
+    evaluated['loglikelihoodregression'] = d
     want = -((meas - model) / sigma) ** 2 / 2 - sp.log(sigma**2) / 2 - HALFLOG2PI
-    ok = _same(d.ret, want)
-    ctx.add('C17.R5', 'loglikelihoodregression', ok, d.f, f'log density = {d.ret}' + ('' if ok else f' ; normal log density: {want}'), detail='' if ok else str(d.ret))
+    _verdict(ctx, 'C17.R5', 'loglikelihoodregression', d.ret, want, _grid(meas=[-1, Q(1, 3), 2], model=[0, Q(1, 2), 3], sigma=[Q(1, 2), 1, 3, -2]), d.f, 'log density', 'normal log density')
+    # constants: the float literals that enter the formula (read in the function, in a helper it calls or in a module-level constant)
+    for name, want, label in (('normalpdf', math.sqrt(2 * math.pi), 'sqrt(2 pi)'), ('lognormalpdf', math.sqrt(2 * math.pi), 'sqrt(2 pi)'), ('loglikelihoodregression', 0.5 * math.log(2 * math.pi), '(1/2) ln(2 pi)')):
+        d = evaluated[name]
+        lits = sorted({t for t in d.literals if abs(t[0] - want) < 0.01})
+
+        def exact(v):
+            digits = len(repr(v).split('e')[0].split('.')[-1])
+            return 'e' not in repr(v) and abs(v - want) <= 0.5 * 10 ** (-digits) * 1.0000001
+
+        wrong = [t for t in lits if not exact(t[0])]
+        if wrong:
+            ctx.add('C17.R1', f'{name}:constant', False, (wrong[0][1], wrong[0][2]), f'{wrong[0][0]} stands for {label} = {want:.12g} - wrong at the printed precision', str(wrong[0][0]), positive=True)
+        elif lits:
+            ctx.add('C17.R1', f'{name}:constant', True, (lits[0][1], lits[0][2]), f'{lits[0][0]} stands for {label} = {want:.12g}', str(lits[0][0]))
+        else:
+            ctx.add('C17.R1', f'{name}:constant', None, d.f, f'no numeric literal standing for {label} = {want:.12g} enters the formula of {name}: the constant is not written in the expected form', '')
     lr = prog.func('loglikelihood', 'likelihoodregression')
     ok = [unparse(s_) for s_ in lr.body] == ['return exp(loglikelihoodregression(meas, model, sigma))']
     ctx.add('C17.R5', 'likelihoodregression', ok, lr, 'likelihood = exp(log likelihood) with the same arguments' if ok else 'likelihoodregression is no longer exp(loglikelihoodregression(meas, model, sigma))', 'twin')
@@ -96,6 +405,8 @@ def run(ctx: Ctx) -> None:
 
     # Box-Cox
     bc = dsl('models.boxcox', 'boxcox')
+    if 'x' not in bc.env or 'ell' not in bc.env:
+        raise AnalysisError('C17: anchor missing: boxcox(x, ell)')
     xx, ell = bc.env['x'], bc.env['ell']
     # the structure is read off the returned selection: Elem({0: Elem({0: regular, 1: series}, switch), 1: 0}, x == 0)
     reg = mac = cz = smooth = None
@@ -110,38 +421,39 @@ def run(ctx: Ctx) -> None:
             reg, mac = it2.get(sp.Integer(0)), it2.get(sp.Integer(1))
     if reg is None or mac is None or cz is None:
         raise AnalysisError(f'C17: anchor missing: boxcox no longer returns Elem({{0: Elem({{0: regular, 1: series}}, switch), 1: 0}}, x == 0): {r}')
-    ok = _same(reg, (xx**ell - 1) / ell)
-    ctx.add('C17.R2', 'boxcox:regular', ok, bc.f, f'regular branch = {reg}' + ('' if ok else ' ; expected (x^l - 1)/l'), str(reg))
+    bpts = _grid(x=[Q(1, 2), 2, 3], ell=[-1, Q(-1, 3), Q(1, 2), 2])
+    _verdict(ctx, 'C17.R2', 'boxcox:regular', reg, (xx**ell - 1) / ell, bpts, bc.f, 'regular branch', 'expected (x^l - 1)/l')
     Lx = sp.Symbol('Lx', real=True)
-    series = sp.series((sp.exp(ell * Lx) - 1) / ell, ell, 0, 4).removeO()
-    got = mac.subs(sp.log(xx), Lx)
-    ok = sp.simplify(sp.expand(got - series)) == 0
-    ctx.add('C17.R2', 'boxcox:maclaurin', ok, bc.f, f'near-zero branch = {sp.expand(got)}' + ('' if ok else f' ; the Maclaurin polynomial of (x^l-1)/l is {sp.expand(series)}'), '' if ok else str(sp.expand(got)))
+    series = sp.expand(sp.series((sp.exp(ell * Lx) - 1) / ell, ell, 0, 4).removeO())
+    got = sp.expand(sp.expand_log(mac, force=True).subs(sp.log(xx), Lx))
+    if xx in got.free_symbols:
+        got, series = mac, series.subs(Lx, sp.log(xx))
+    _verdict(ctx, 'C17.R2', 'boxcox:maclaurin', got, series, _grid(Lx=[-1, Q(1, 2), 2], x=[Q(1, 2), 2, 3], ell=[-1, Q(-1, 3), Q(1, 2), 2]), bc.f, 'near-zero branch', 'the Maclaurin polynomial of (x^l-1)/l is')
     eps = sp.Rational(1, 100000)
-    ok = _same(cz, LT(ell, eps) * LT(-eps, ell))
-    ctx.add('C17.R2', 'boxcox:switch', ok, bc.f, f'switch = {cz}' + ('' if ok else ' ; expected the symmetric interval |l| < 1e-5'), str(cz))
+    _verdict(ctx, 'C17.R2', 'boxcox:switch', cz, LT(ell, eps) * LT(-eps, ell), _grid(x=[2], ell=[-1, -2 * eps, -eps, -eps / 2, 0, eps / 2, eps, 2 * eps, 1]), bc.f, 'switch', 'expected the symmetric interval |l| < 1e-5, i.e.')
     ok = smooth is not None and smooth == ELEM(cz, 0, reg, 1, mac) and bc.ret == ELEM(EQ(xx, 0), 0, smooth, 1, 0)
     ctx.add('C17.R2', 'boxcox:selection', ok, bc.f, 'series iff close to zero; 0 iff x = 0' if ok else f'selection of the branches changed: {bc.ret}', str(bc.ret))
 
     # piecewise
     pv = prog.func('models.piecewise', 'piecewise_variables')
     SEG = 'bioMax(Numeric(0), bioMin(variable - thresholds[{lo}], {w}))'
-    b = find(pv.node, f"""
+    ORDER = f"""
 if thresholds[0] is None:
     _R = [bioMin(variable, thresholds[1])]
 else:
-    _B = thresholds[1] - thresholds[0]
-    _R = [{SEG.format(lo='0', w='_B')}]
+    _B1 = thresholds[1] - thresholds[0]
+    _R = [{SEG.format(lo='0', w='_B1')}]
 for _I in range(1, _N - 2):
-    _B = thresholds[_I + 1] - thresholds[_I]
-    _R += [{SEG.format(lo='_I', w='_B')}]
+    _B2 = thresholds[_I + 1] - thresholds[_I]
+    _R += [{SEG.format(lo='_I', w='_B2')}]
 if thresholds[-1] is None:
     _R += [bioMax(0, variable - thresholds[-2])]
 else:
-    _B = thresholds[-1] - thresholds[-2]
-    _R += [{SEG.format(lo='-2', w='_B')}]
+    _B3 = thresholds[-1] - thresholds[-2]
+    _R += [{SEG.format(lo='-2', w='_B3')}]
 return _R
-""")
+"""
+    # the three widths may share a temporary (as written) or not: every way of sharing is tried
     parts = {
         'first': "if thresholds[0] is None:\n    ___\nelse:\n    _B = thresholds[1] - thresholds[0]\n    _R = [" + SEG.format(lo='0', w='_B') + "]",
         'first-open': "if thresholds[0] is None:\n    _R = [bioMin(variable, thresholds[1])]\nelse:\n    ___",
@@ -152,21 +464,33 @@ return _R
     nlen = find(pv.node, '_N = len(thresholds)')
     # positive part: the width against which the first segment is clipped
     bw = find(pv.node, "if thresholds[0] is None:\n    ___\nelse:\n    ___\n    _R = [bioMax(Numeric(0), bioMin(variable - thresholds[0], __W))]")
+    first_by_value = False
     if bw is not None:
-
         from ..cfg import cfg_of as _cfg_of
 
         wn = bw['__W'][1]
         cpv = _cfg_of(pv.node)
-        origins = cpv.origins(wn, cpv.node_of(wn)) if isinstance(wn, ast.Name) else [wn]
-        ws = sorted({unparse(o).replace(' ', '') for o in origins})
-        w = ' / '.join(ws)
-        okw = ws == ['thresholds[1]-thresholds[0]']
-        ctx.add('C17.R6', 'piecewise_variables:first-width', okw, pv, 'the first segment is clipped at its own length t1 - t0' if okw
-                else f'the first segment is clipped at {w} instead of the length thresholds[1] - thresholds[0] of the interval: with t0 != 0 the variables no longer sum to the distance from the first threshold', w, positive=True)
+        widths = _threshold_terms(cpv, pv.node, wn, cpv.node_of(wn))
+        t0, t1 = sp.Symbol('thresholds[0]'), sp.Symbol('thresholds[1]')
+        w = ' / '.join(sorted({str(v) for v in widths if v is not None})) or unparse(wn)
+        if widths and all(v is not None for v in widths):
+            # every value the clipping width can have is a combination of thresholds[k]: it either is t1 - t0 or it is not
+            okw = all(sp.expand(v - (t1 - t0)) == 0 for v in widths)
+            first_by_value = okw  # max(0, min(x - t0, W)) in the closed branch, W proved to be t1 - t0
+            ctx.add('C17.R6', 'piecewise_variables:first-width', okw, pv, 'the first segment is clipped at its own length t1 - t0' if okw
+                    else f'the first segment is clipped at {w} instead of the length thresholds[1] - thresholds[0] of the interval: with t0 != 0 the variables no longer sum to the distance from the first threshold', w, positive=True)
+        else:
+            ctx.add('C17.R6', 'piecewise_variables:first-width', None, pv, f'the width {unparse(wn)} at which the first segment is clipped is not resolved to the thresholds: the form of piecewise_variables changed', w)
     for what, pat in parts.items():
-        ok = has(pv.node, pat) and nlen is not None
+        ok = (has(pv.node, pat) or (what == 'first' and first_by_value)) and nlen is not None
         ctx.add('C17.R6', f'piecewise_variables:{what}', ok, pv, f'{what} segment is max(0, min(x - t_i, t_i+1 - t_i)) (open ends handled)' if ok else f'the {what} segment of piecewise_variables changed', what)
+    b = None
+    for names in (('_B', '_B', '_B'), ('_B1', '_B2', '_B3'), ('_B1', '_B', '_B'), ('_B', '_B2', '_B'), ('_B', '_B', '_B3')):
+        b = b or find(pv.node, ORDER.replace('_B1', names[0]).replace('_B2', names[1]).replace('_B3', names[2]))
+    if b is None and first_by_value:
+        # the width of the first segment is not a temporary of its own but has been proved above to be t1 - t0
+        BYVAL = ORDER.replace("    _B1 = thresholds[1] - thresholds[0]\n", "    ___\n").replace(SEG.format(lo='0', w='_B1'), SEG.format(lo='0', w='__W'))
+        b = find(pv.node, BYVAL.replace('_B2', '_B').replace('_B3', '_B')) or find(pv.node, BYVAL)
     ok = b is not None and nlen is not None and b['_N'] == nlen['_N']
     ctx.add('C17.R6', 'piecewise_variables:order', ok, pv, 'first, middle (1 .. n-3) and last segments are appended in this order to the returned list' if ok else 'the segments of piecewise_variables are no longer assembled first / middle / last into the returned list', 'order')
     pf = prog.func('models.piecewise', 'piecewise_formula')
@@ -246,22 +570,36 @@ return f"Beta('{_NAME}', {self.beta.initValue}, {_LB}, {_UB}, {self.beta.status}
     ctx.add('C17.R3', 'OneSegmentation.__init__', ok, oi, 'the reference category carries no shift' if ok else 'the reference category is no longer excluded', 'ref')
     DT = prog.cls('segmentation', 'DiscreteSegmentationTuple')
     dti = DT.methods['__init__']
-    stores = [a for a in walk_no_nested(dti.node) if isinstance(a, ast.Assign) and unparse(a.targets[0]) == 'self.reference']
-    flows = [a for a in stores if any(isinstance(n, ast.Name) and n.id == 'reference' for n in ast.walk(a.value))]
-    if stores and not flows:
+    stores, flows, escapes = _param_stores(dti.node, 'self.reference', 'reference')
+    if stores and not flows and not escapes:
         ctx.add('C17.R3', 'DiscreteSegmentationTuple.__init__:reference', False, dti,
-                f'self.reference is only ever set to {", ".join(sorted({unparse(a.value) for a in stores}))}: the reference category asked for by the caller is never stored, so the first category stays without shift '
-                'and the requested one receives a shift', 'reference', positive=True)
+                f'self.reference is only ever set to {", ".join(sorted({unparse(a.value) for a in stores}))}, none of which is computed from the parameter `reference`: the reference category asked for by the caller is never stored, '
+                'so the first category stays without shift and the requested one receives a shift', 'reference', positive=True)
     else:
-        okr = has(dti.node, """
-if reference is None:
-    self.reference = next(iter(mapping.values()))
+        REFUSE = """
 elif reference not in mapping.values():
     ___
     raise BiogemeError(__MSG)
-else:
-    self.reference = reference
-""")
+"""
+        okr = has(dti.node, "if reference is None:\n    self.reference = next(iter(mapping.values()))" + REFUSE + "else:\n    self.reference = reference") or has(
+            dti.node, "if reference is None:\n    _SEL = next(iter(mapping.values()))" + REFUSE + "else:\n    _SEL = reference\nself.reference = _SEL")
+        if not okr:
+            # the same decision written with the refusal first and a conditional value, locals read as their definitions
+            import copy
+
+            flat = copy.deepcopy(dti.node)
+            for n in ast.walk(flat):
+                if isinstance(n, ast.If):
+                    n.test = inline_locals(dti.node, n.test)
+                elif isinstance(n, (ast.Assign, ast.AnnAssign)) and n.value is not None and unparse(n.targets[0] if isinstance(n, ast.Assign) else n.target) == 'self.reference':
+                    n.value = inline_locals(dti.node, n.value)
+            GUARD = "if reference is not None and reference not in mapping.values():\n    ___\n    raise BiogemeError(__MSG)\n___\n"
+            okr = any(has(flat, GUARD + st) for st in (
+                "self.reference = next(iter(mapping.values())) if reference is None else reference",
+                "self.reference = reference if reference is not None else next(iter(mapping.values()))",
+                "if reference is None:\n    self.reference = next(iter(mapping.values()))\nelse:\n    self.reference = reference",
+                "if reference is not None:\n    self.reference = reference\nelse:\n    self.reference = next(iter(mapping.values()))"))
+        okr = okr and not any(isinstance(n, ast.Name) and n.id in ('reference', 'mapping') and isinstance(n.ctx, (ast.Store, ast.Del)) for n in ast.walk(dti.node))
         ctx.add('C17.R3', 'DiscreteSegmentationTuple.__init__:reference', okr if okr else None, dti, 'reference = the category asked for (refused when unknown), the first category by default' if okr else
                 'the choice of the reference category is not in the expected form (default: first category; unknown: BiogemeError; otherwise the category asked for)', 'reference')
     G = prog.cls('segmentation', 'Segmentation')
